@@ -23,7 +23,30 @@ MARKERS = [
     {"gen": "markers", "quick": "-depth 5 -n 5000", "thorough": "-depth 8 -n 100000"},
 ]
 
+BUFRULE = "all ManualBuffer call sequences over a 50-op alphabet (SetMode x3, Write of 17 hostile payloads incl. markers/partial markers/LF, raw fragments, WriteByte x9, WriteRune x8, accessors, Take, Reset, Grow) up to the depth, plus random sequences of length 2-15; the hidden state (buf, validUntil, mode, markerOpen) is compared with the model after EVERY call; non-trivial = at least 2 calls"
+
 PROPS = {
+    "C01": {
+        "gens": BUF + LOW[1:],
+        "qtags": ["Q:C01", "Q:C11"],
+        "rule": BUFRULE + "; EscapeBytes on all strings over the escape alphabet",
+        "exhaustive": True,
+        "assumptions": ["raw (pre-redactable) writes are of well-formed, marker-closed fragments (hypothesis rawok of the theorems; enforced by the driver with the same extracted predicate)"],
+    },
+    "C03": {
+        "gens": BUF + LOW[1:],
+        "qtags": ["Q:C03", "Q:C11"],
+        "rule": BUFRULE + "; EscapeBytes on all strings over the escape alphabet",
+        "exhaustive": True,
+        "assumptions": ["raw writes are line-safe fragments (rawok)"],
+    },
+    "C13": {
+        "gens": BUF,
+        "qtags": ["Q:C13", "Q:C11"],
+        "rule": BUFRULE + "; accessors/Take/Reset occur at every position; strings handed out earlier are re-read at the end",
+        "exhaustive": True,
+        "assumptions": ["abstract list-level model: aliasing of the backing array by struct copies is covered by the state comparison only"],
+    },
     "C10": {
         "gens": LOW,
         "qtags": ["Q:C10", "Q:C11"],
